@@ -266,10 +266,23 @@ fn observe(tera: &Tera, set: &[Tpl], reg: IRes, diverges: &BTreeMap<usize, bool>
         let risky = *diverges.get(&t.name).unwrap_or(&false);
         let r = if risky { child(t.name, None) } else { to_ires(guarded(|| tera.render(&tn, &ctx))) };
         res.renders.push((t.name, r));
+        // a divergent template: one child-process render_block of a block the chain defines;
+        // names the chain does not define are answered before any rendering starts
+        let chain_defines = |b: usize| match chain_of(set, t) {
+            Some(ch) => ch.iter().any(|x| find_def(&x.body, b).is_some()),
+            None => true,
+        };
+        let mut child_done = false;
         for &b in &names {
             let r = if risky {
-                // render_block checks the lineage first: only a present block starts the render
-                child(t.name, Some(b))
+                if !chain_defines(b) {
+                    to_ires(guarded(|| tera.render_block(&tn, &format!("b{b}"), &ctx)))
+                } else if !child_done {
+                    child_done = true;
+                    child(t.name, Some(b))
+                } else {
+                    continue;
+                }
             } else {
                 to_ires(guarded(|| tera.render_block(&tn, &format!("b{b}"), &ctx)))
             };
@@ -500,6 +513,9 @@ struct Stats {
     renders: usize,
     block_renders: usize,
     d8_shape: usize,
+    d13_seen: usize,
+    d13_cap: usize,
+    d13_skipped: usize,
 }
 
 fn has_block_in_cap(ns: &[Node], in_cap: bool) -> bool {
@@ -530,6 +546,10 @@ fn count_super(ns: &[Node]) -> usize {
         .sum()
 }
 
+static T_BASE: std::sync::atomic::AtomicU64 = std::sync::atomic::AtomicU64::new(0);
+static T_ORD: std::sync::atomic::AtomicU64 = std::sync::atomic::AtomicU64::new(0);
+static T_INC: std::sync::atomic::AtomicU64 = std::sync::atomic::AtomicU64::new(0);
+
 fn push_set(sink: &mut Sink, meta: &mut Meta, rng: &mut Rng, st: &mut Stats, set: &[Tpl], max_orders: usize, origin: &str) {
     let n = set.len();
     // canonical listing: sorted by name (the order of finalize's first loop)
@@ -538,10 +558,19 @@ fn push_set(sink: &mut Sink, meta: &mut Meta, rng: &mut Rng, st: &mut Stats, set
     let set = &sorted[..];
     let div = divergence_map(set);
     let any_div = div.values().any(|d| *d);
+    if any_div {
+        if st.d13_seen >= st.d13_cap {
+            st.d13_skipped += 1;
+            return;
+        }
+        st.d13_seen += 1;
+    }
     let ident: Vec<usize> = (0..n).collect();
+    let t_start = std::time::Instant::now();
     let (tera, reg) = register_batch(set, &ident);
     let child = |t: usize, b: Option<usize>| run_child(set, t, b);
     let base = observe(&tera, set, reg, &div, &child);
+    T_BASE.fetch_add(t_start.elapsed().as_micros() as u64, std::sync::atomic::Ordering::Relaxed);
     st.sets += 1;
     if any_div && matches!(base.reg, IRes::Ok(_)) {
         st.d13_sets += 1;
@@ -573,6 +602,7 @@ fn push_set(sink: &mut Sink, meta: &mut Meta, rng: &mut Rng, st: &mut Stats, set
     // ---- oracle: registration order / HashMap seeds / incremental orders give the same result
     // (divergent renders are not repeated)
     let no_div: BTreeMap<usize, bool> = BTreeMap::new();
+    let t_ord = std::time::Instant::now();
     if !any_div {
         let mut orders: Vec<Vec<usize>> = if n <= 4 { permutations(n) } else { (0..max_orders).map(|_| shuffle(rng, n)).collect() };
         if orders.len() > max_orders {
@@ -595,6 +625,7 @@ fn push_set(sink: &mut Sink, meta: &mut Meta, rng: &mut Rng, st: &mut Stats, set
                 break;
             }
         }
+        T_ORD.fetch_add(t_ord.elapsed().as_micros() as u64, std::sync::atomic::Ordering::Relaxed);
         // incremental, parent before child
         let incr: Vec<Vec<usize>> = if n <= 4 {
             permutations(n).into_iter().filter(|o| parent_first(set, o)).collect()
@@ -649,6 +680,7 @@ fn push_set(sink: &mut Sink, meta: &mut Meta, rng: &mut Rng, st: &mut Stats, set
     }
 
     // ---- the case for the model
+    let _ = &T_INC;
     let gal = format!(
         "{{| sc_tpls := [{}]; sc_reg := {}; sc_renders := [{}]; sc_blocks := [{}] |}}",
         set.iter().map(gal_tpl).collect::<Vec<_>>().join("; "),
@@ -1039,7 +1071,7 @@ fn main() {
     let mut meta = Meta::default();
     let header = "From Coq Require Import List NArith.\nFrom TeraV Require Import Model.Value Model.Lineage Corr.CorrC04.\nImport ListNotations.\nLocal Open Scope N_scope.";
     let mut sink = Sink::new(&args.out, "set", header, "check_set");
-    let mut st = Stats { sets: 0, accepted: 0, rejected: 0, d13_sets: 0, d13_child_runs: 0, orders_checked: 0, incr_checked: 0, renders: 0, block_renders: 0, d8_shape: 0 };
+    let mut st = Stats { sets: 0, accepted: 0, rejected: 0, d13_sets: 0, d13_child_runs: 0, orders_checked: 0, incr_checked: 0, renders: 0, block_renders: 0, d8_shape: 0, d13_seen: 0, d13_cap: if thorough { 40 } else { 8 }, d13_skipped: 0 };
 
     // corpus: hand-written edge cases first
     for s in malformed_sets() {
@@ -1106,6 +1138,9 @@ fn main() {
     meta.extra.insert("sets_with_block_in_capture".into(), json!(st.d8_shape));
     meta.extra.insert("d13_class_sets_accepted_and_divergent".into(), json!(st.d13_sets));
     meta.extra.insert("d13_child_process_renders".into(), json!(st.d13_child_runs));
+    meta.extra.insert("d13_class_sets_skipped_over_cap".into(), json!(st.d13_skipped));
+    meta.extra.insert("impl_ms_first_registration_and_renders".into(), json!(T_BASE.load(std::sync::atomic::Ordering::Relaxed) / 1000));
+    meta.extra.insert("impl_ms_order_oracles".into(), json!(T_ORD.load(std::sync::atomic::Ordering::Relaxed) / 1000));
     meta.families.push(sink.finish());
     meta.write(&args.out);
 }
